@@ -100,3 +100,63 @@ def classify_f8(sc):
         return False
     t1, t2 = tr[0], tr[1]
     return any(t1 + WINDOW <= e < t2 + WINDOW for (e, b) in sc.ends if e > tr[2])
+
+
+# ---------------------------------------------------------------------------------------------
+# The concrete histories of the Coq witness lemmas (Proofs/AssemblerP.v: tx_ops, F1.., normal_transmission),
+# rebuilt here with the same arithmetic, run on the IMPLEMENTATION and on the extracted model, and
+# compared with what the Coq Example states.  This ties each `_refuted` theorem to the code.
+STR_A = b"ZCZC-EAS-DMO-999000+0015-0011122-NOCALL00-"
+STR_B = b"ZCZC-WXR-TOR-039173+0030-0011122-KCLE/NWS-"
+STR_N = b"NNNN"
+SEC = 521
+
+
+def coq_tx_ops(now, bursts, tail):
+    toks = []
+    for gap, d in bursts:
+        e = now + gap + (16 + len(d)) * 8
+        toks += ["i%d" % t for t in range(now + 1, now + gap + 50 + 1)]
+        toks.append("a%d:%s" % (e, hx(d)))
+        now = e
+    toks += ["i%d" % t for t in range(now + 1, now + tail + 1)]
+    return ",".join(toks)
+
+
+def kinds(script, out):
+    res = []
+    for (t, r) in reports(script, out):
+        k = 3 if r == "eom" else (0 if r.startswith("ERR") else (1 if rep_text(r) == STR_A else 2 if rep_text(r) == STR_B else 0))
+        res.append((t, k))
+    return res
+
+
+WITNESSES = {
+    "F1": ([(SEC, STR_A)] * 3 + [(SEC, STR_B)] * 3, 800, [(7592, 2)]),
+    "F2": ([(SEC, STR_A), (SEC + SEC + (16 + 42) * 8, STR_A), (SEC, STR_N), (SEC, STR_N)], 6000, [(5318, 1)]),
+    "F3": ([(SEC, STR_A)] * 6, 800, [(7592, 1)]),
+    "F8": ([(SEC, STR_N)] * 3 + [(4272, STR_B)], 800, [(1681, 3), (7779, 3)]),
+    "normal": ([(SEC, STR_A)] * 3 + [(1300, STR_N), (SEC, STR_N), (SEC, STR_N)], 800, [(4637, 1), (6096, 3)]),
+}
+
+
+def run_witnesses(ctx, names):
+    """returns {name: reproduced_on_impl}; a model/Coq disagreement is a correspondence violation"""
+    scripts = {n: coq_tx_ops(1000, WITNESSES[n][0], WITNESSES[n][1]) for n in names}
+    model, impl = run_scripts([scripts[n] for n in names])
+    res = {}
+    for n, mo, im in zip(names, model, impl):
+        want = WITNESSES[n][2]
+        km, ki = kinds(scripts[n], mo), kinds(scripts[n], im)
+        if km != want:
+            ctx.violation("correspondence", "extracted model disagrees with the Coq witness lemma %s: %s vs %s" % (n, km, want),
+                          {"input": "asm " + scripts[n][:200] + "...", "witness": n})
+        res[n] = (ki == want)
+        if n == "normal" and ki != want:
+            ctx.violation("property" if mo == im else "correspondence",
+                          "the ordinary six-burst history (Coq Example normal_transmission) gives %s on the implementation, expected %s" % (ki, want),
+                          {"input": "asm " + scripts[n], "witness": n})
+        elif mo != im:
+            ctx.violation("correspondence", "model and implementation differ on the witness history %s (impl %s, model %s)" % (n, ki, km),
+                          {"input": "asm " + scripts[n], "witness": n})
+    return res
